@@ -480,6 +480,7 @@ func runReuse(idx int, sc Script) Result {
 	res := Result{Steered: true}
 	for i, s := range sc.Steps {
 		ok, why := r.step(s)
+		settle(r.rec)
 		if !ok {
 			res.Steered = false
 			res.Why = fmt.Sprintf("step %d %v: %s", i, s, why)
